@@ -123,6 +123,32 @@ def refused_load_case(answer):
     return []
 
 
+def damaged_omen_case(which='CP.level'):
+    """a ruleset whose PCFG part is sound while one OMEN level file went through a wrong transcoding (Latin-1 bytes, the config says
+    utf-8): whatever the program makes of it - refuse the ruleset, or run - stdout under `-n N` is exactly min(N, unlimited) lines"""
+    om = {'ngram': 2, 'alphabet': ['a', 'é'], 'ip': [[0, 'a'], [0, 'é']], 'ep': [[0, 'a'], [0, 'é']],
+          'cp': [[0, 'aa'], [0, 'aé'], [0, 'éa'], [1, 'éé']], 'ln': [10, 1, 1], 'keyspace': []}
+    spec = {'terminals': {'D2': [['12', '0.5'], ['34', '0.25'], ['56', '0.25']], 'A3': [['fox', '0.5'], ['dog', '0.5']], 'C3': [['LLL', '0.5'], ['ULL', '0.5']]},
+            'grammar': [['M', '0.5'], ['A3D2', '0.25'], ['D2', '0.25']], 'omen_prob': [['1', '0.5'], ['2', '0.25']], 'prince': [], 'mode': 'dyadic',
+            'encoding': 'utf-8', 'omen': om}
+    name = 'c09damaged'
+    d = common.install_ruleset(spec, name)
+    path = os.path.join(d, 'Omen', which)
+    raw = open(path, 'rb').read()
+    open(path, 'wb').write(raw.decode('utf-8').encode('latin-1'))
+    full, _, _ = common.run_cli('pcfg_guesser.py', ['-r', name], stdin='devnull')
+    total = full.count(b'\n')
+    viol, runs = [], 1
+    for n in sorted({1, 2, 3, 5, 8, 13, max(total - 1, 1), total, total + 1, total + 7} | set(range(1, min(total, 40) + 1))):
+        o, e, rc = common.run_cli('pcfg_guesser.py', ['-r', name, '-n', str(n)], stdin='devnull')
+        runs += 1
+        if o.count(b'\n') != min(n, total) or o != full[:len(o)]:
+            viol.append({'property': 'C09', 'kind': 'limit-not-honoured', 'limit': n, 'lines': o.count(b'\n'), 'unlimited_lines': total,
+                         'witness': {'damaged_omen_file': which}})
+            break
+    return viol, runs
+
+
 def mode_option_cases(ctx):
     viol, runs = [], 0
     for answer in ([b'y\n'] if ctx.quick else [b'y\n', b'n\n', b'']):
@@ -138,6 +164,10 @@ def mode_option_cases(ctx):
         runs += 1
     viol += mode_option_case(['-m', 'honeywords', '-n', '4'], name='modeheavy', spec=heavy_spec())
     runs += 1
+    for which in (['CP.level'] if ctx.quick else ['CP.level', 'IP.level', 'EP.level']):
+        v_, r_ = damaged_omen_case(which)
+        viol += v_
+        runs += r_
     return viol, runs
 
 
@@ -226,6 +256,8 @@ def replay(ctx, payload):
         return mode_option_case(w['mode_args'], 'replaymode')
     if 'refused_load_answer' in w:
         return refused_load_case(w['refused_load_answer'].encode())
+    if 'damaged_omen_file' in w:
+        return damaged_omen_case(w['damaged_omen_file'])[0]
     if 'cli' in w:
         name = 'replay'
         d = common.install_ruleset(w['spec'], name)
